@@ -673,7 +673,7 @@ func checkC08(c *Ctx) {
 		{"3x1:f1,f1,f3", [][]int{{1}, {2}, {2049}}},
 		{"2x2:f1+f2,f3+f1", [][]int{{7, 1100}, {2050, 1024}}},
 		{"3x2,1,1", [][]int{{3, 1025}, {1024}, {9}}},
-		{"2x1:f34,f1", [][]int{{34000}, {7}}},       // a payload of more than 32 frames (the accessory database of a bridge) against an event
+		{"2x1:f34,f1", [][]int{{34000}, {7}}}, // a payload of more than 32 frames (the accessory database of a bridge) against an event
 		{"3x1:f70,f1,f40", [][]int{{70000}, {12}, {40001}}},
 	}
 	budget := []int{c.Pick(60, 400), c.Pick(40, 400), c.Pick(40, 400), c.Pick(120, 1500), c.Pick(120, 1500), c.Pick(80, 800), c.Pick(80, 2500), c.Pick(40, 400), c.Pick(60, 1500)}
